@@ -297,6 +297,15 @@ def execute(doc: dict) -> dict:
                        f"{space.n_items} x_dim={decoder.get_x_dim(0)} for "
                        f"template with {n_items} items / {min_bins} bins")
         return res
+    base_dim = n_items - min_bins
+    for slack in (0, 0.125, 0.25, 0.5, 1, 2.0):
+        want_dim = 2 * (base_dim + int(slack * base_dim + 0.5))
+        if decoder.get_x_dim(slack) != want_dim:
+            core.violation(res, "wrong-vector-dimension",
+                           f"get_x_dim({slack}) = {decoder.get_x_dim(slack)}"
+                           f", documented 2*(n_items-min_bins+round(slack*"
+                           f"(n_items-min_bins))) = {want_dim}")
+            return res
     hp = doc["hardness"]
     objs: dict = {}
 
